@@ -1866,6 +1866,21 @@ def main(tier):
         errors = ["model not built"]
     pr = check_printer(rep, tier, seed)
     pw = check_power_printer(rep, tier)
+    # witness tie of proofs/GuardMerge.v (C03_merged_guard_refuted): after the first call of run on
+    # corpus/C03/raw_guard_rewritten.json the interpreter holds what wit_interpreter computes, (3, 0); the compiled
+    # stepper holds what wit_generated computes, (3, 1), for as long as the finding is open, and (3, 0) once repaired
+    gm = {"checked": False}
+    for case, res in zip(cases, results):
+        if case.get("file", "").endswith("raw_guard_rewritten.json"):
+            i1 = (res.get("interp") or {}).get("steps") or [{}]
+            f1 = (res.get("fortran") or {}).get("steps") or [{}]
+            iv = (i1[0].get("<p>x"), i1[0].get("<p>y"))
+            fv = (f1[0].get("<p>x"), f1[0].get("<p>y"))
+            gm = {"checked": True, "interpreter": iv, "compiled": fv,
+                  "ok": iv == (3, 0) and fv in ((3, 1), (3, 0))}
+            if not gm["ok"]:
+                errors = list(errors) + ["GuardMerge witness: interpreter %r, compiled %r" % (iv, fv)]
+    rep.coverage["guard_merge_witness"] = gm
     tie_broken = bool(mism or errors or pr["model_disagreements"] or pr["errors"]
                       or pw["model_disagreements"] or pw["errors"])
     if (not ps["ok"] or tie_broken) and not rep.violations:
